@@ -150,8 +150,10 @@ func (p *Prog) verifyFunction(f *ssa.Function, c *Contract) (res *FnResult) {
 		q.obligs = append(q.obligs, o)
 	}
 	if len(ex.rets) == 0 {
+		p.exceptionalPosts(ex, c, key)
 		return res
 	}
+	defer p.exceptionalPosts(ex, c, key)
 	// merge return sites
 	var heaps []*Heap
 	for _, r := range ex.rets {
@@ -338,5 +340,34 @@ func (ex *Exec) frameObligations(c *Contract, h0, hf *Heap, guard, a0 Term) {
 		idxSort := idxSortOf(fin.Sort)
 		goal := Term{fmt.Sprintf("(forall ((p!f %s)) (=> (and %s) (= (select %s p!f) (select %s p!f))))", idxSort, strings.Join(conds, " "), fin.S, ini.S), sBool}
 		q.oblige(name, "frame", guard, goal, pos, "locations not in modifies clause are unchanged: "+key)
+	}
+}
+
+// exceptionalPosts emits, for every recorded exceptional exit of the function, the obligations that its
+// "onpanic ensures" clauses hold after the deferred calls registered on that path have run.
+func (p *Prog) exceptionalPosts(ex *Exec, c *Contract, key string) {
+	if len(c.OnPanic) == 0 || len(ex.excExits) == 0 {
+		return
+	}
+	q := ex.q
+	ex.inExc = true
+	defer func() { ex.inExc = false }()
+	exits := ex.excExits
+	savedPrefix := ex.prefix
+	for i, xe := range exits {
+		h := xe.heap.clone()
+		if len(xe.defers) > 0 {
+			ex.prefix = fmt.Sprintf("%spanic@x%d/", savedPrefix, i+1)
+			ex.runDeferred(xe.defers, xe.block, h, xe.reach)
+			ex.prefix = savedPrefix
+		}
+		sc := ex.specCtx(ex.paramVars(), h)
+		for _, e := range c.OnPanic {
+			if !q.propActive(e.OnlyProp) {
+				continue
+			}
+			q.oblige(fmt.Sprintf("%s/post.panic.%s@x%d", key, e.Label, i+1), "post.panic", xe.reach, sc.evalBool(e), xe.pos,
+				"exceptional postcondition ("+xe.what+"): "+e.Text)
+		}
 	}
 }
